@@ -187,6 +187,7 @@ static void *c05_root(void *arg) {
 	for (int a = 0; a < actors; a++) { char nm[16]; snprintf(nm, sizeof(nm), "actor%d", a); ids[a] = sim_spawn(actor_main, (void *)(intptr_t)a, nm); }
 	for (int a = 0; a < actors; a++) sim_join_fiber(ids[a]);
 	/* quiescence: every worker parked, nothing pending */
+	sim_fair_finish();
 	sim_wait_idle(3600ull * 1000000000ull);
 	world_check_messages(1);
 	if (W.nmsgs > 2) sim_mark_interesting();
